@@ -1,0 +1,8 @@
+//go:build !verif
+
+// Package vhook provides yield points for deterministic-schedule verification.
+// Without the "verif" build tag every function here is empty and is inlined away.
+package vhook
+
+// Yield marks the point immediately before a shared-memory access. No-op in normal builds.
+func Yield(id int) {}
